@@ -374,7 +374,16 @@ def run_v10_v12(chk, repo):
     for c in ast.walk(gi.node):
         if isinstance(c, (ast.ListComp, ast.GeneratorExp, ast.SetComp)) and c.generators[0].ifs:
             forms = set()
-            for t in ast.walk(c.generators[0].ifs[0]):
+            # the test may be a local predicate `selected(name)`: its returned expression is looked at instead
+            cond = c.generators[0].ifs[0]
+            loc = reach.local_callables(gi.node)
+            for call in [x for x in ast.walk(cond) if isinstance(x, ast.Call) and isinstance(x.func, ast.Name) and x.func.id in loc]:
+                d_ = loc[call.func.id]
+                body_ = d_.body if isinstance(d_, ast.Lambda) else next(
+                    (r_.value for r_ in ast.walk(d_) if isinstance(r_, ast.Return) and r_.value is not None), None)
+                if body_ is not None:
+                    cond = body_
+            for t in ast.walk(cond):
                 if isinstance(t, ast.Compare) and len(t.ops) == 1 and isinstance(t.ops[0], (ast.In, ast.NotIn)) \
                         and unparse(t.comparators[0]) == par:
                     lv = c.generators[0].target
@@ -427,7 +436,18 @@ def run_v10_v12(chk, repo):
     em = repo.module('pharmpy.modeling.estimation')
     f = em.functions.get('_descale_matrix')
     if f is None:
-        raise AnalysisError('_descale_matrix not found')
+        # moved / renamed: the function called from calculate_parameters_from_ucp that takes the lower triangle and returns a
+        # matrix product
+        cp_ = em.functions.get('calculate_parameters_from_ucp')
+        for c in (calls_in(cp_.node) if cp_ else []):
+            r_ = repo.resolve(em, dotted(c.func) or '') if isinstance(c.func, ast.Name) else None
+            g_ = r_[1] if r_ and r_[0] == 'func' else None
+            if g_ is not None and 'tril' in unparse(g_.node) and any(isinstance(b, ast.BinOp) and isinstance(b.op, ast.MatMult)
+                                                                       for b in ast.walk(g_.node)):
+                f = g_
+        if f is None:
+            raise AnalysisError('_descale_matrix (the function that rebuilds a matrix from its lower factor) not found')
+        em = f.module
     fcfg = CFG(f.node)
     rets = [n_ for n_ in fcfg.nodes.values() if n_.kind == 'return' and n_.ast.value is not None]
     n12 = 0
